@@ -40,6 +40,10 @@ PROPS["C06"] = dict(units=["ark_element", "ark_encoding", "ark_ops"], assumption
 PROPS["C08"] = dict(units=["ark_element"], assumptions=[A_ARK2, M_DECAF, A_WF, A_STD, M_LE32],
     explanation="eq == spec_eq(repr, repr); Hash writes a function of spec_encode(repr) only; is_identity / Zero::is_zero / AffineRepr::is_zero == (x == 0)")
 
+M_ELL = "M-ELL: ell_opt(r0) is on the curve with z != 0 and in 2E; ell_opt ~ ell_spec (unoptimised map of the specification); ell_opt(-r0) = ell_opt(r0)"
+PROPS["C07"] = dict(units=["ark_elligator"], assumptions=[A_ARK2, M_ELL, C09_CONTRACT, A_WF],
+    explanation="elligator_map == to_affine(ell_opt(r0)) (the specification's optimised step list, normalised by Projective::new); hash_to_curve == group sum of the two maps")
+
 NOT_APPLICABLE = {
     "C15": "circuit shape / pinned Groth16 keys: the subject is the hidden ark_relations constraint store and binary key files; no pre/postcondition on a /repo function can state matrix equality across runs or SNARK verification (DESIGN.md C15)",
 }
